@@ -37,8 +37,8 @@ func vEncDec(c *vCtx, enc *Encryptor, level int, tag string) {
 
 func VerifH_C03_EncryptDecrypt() {
 	vConfig("algebraic-samplers", "1")
-	for i := 0; i < VerifSetup_NumParamSets(); i++ {
-		c := VerifSetup_Ctx(i)
+	for i := 0; i < 5; i++ {
+		c := VerifSetup_Ctx(i, vIsAlgebraic())
 		c.Kgen.GenSecretKey(c.Sk)
 		c.Kgen.GenSecretKey(c.Sk2)
 		c.Kgen.GenPublicKey(c.Sk, c.Pk)
